@@ -52,7 +52,7 @@ def instances(tier, prop):
                 out.append({"kind": "reverse", "L": L, "rev_v": rev_v, "of": of, "_cost": 2 ** L})
         out.append({"kind": "copy", "L": L, "_cost": L})
         if L >= 1:
-            out.append({"kind": "classify", "L": L, "_cost": 4 ** L})
+            out.append({"kind": "classify", "L": L, "_cost": 4 ** L * 10, "_splitbits": 5 if L >= 6 else 0})
     for L in range(0, 4):
         for M in range(0, 4):
             out.append({"kind": "iadd", "L": L, "M": M, "_cost": L + M})
